@@ -16,6 +16,8 @@ structure RaInv (ra : Ra) : Prop where
   -- registration outside the handshake (`premd`), which needs a recorded canonical channel
   closed : ra.tph = 0 → ra.bal = [] ∧ (ra.md = true → ra.chan.isSome = true) ∧ ra.nOpen = 0 ∧ ∀ a st, ra.plan = some (a, st) → st = false
   opened : ra.tph ≠ 0 → ra.nOpen = 1
+  -- only a hard fork freezes the canonical client, and `ForkAllowed` wants transfers enabled
+  frz : ra.frozen = true → ra.tph ≠ 0
 
 theorem AllRa.append {P : Ra → Prop} {s : St} {x : Ra} (h : AllRa P s) (hx : P x) (s' : St) (e : s'.ras = s.ras ++ [x]) : AllRa P s' := by
   intro y hy
@@ -31,7 +33,7 @@ theorem AllRa.of_ras {P : Ra → Prop} {s s' : St} (h : AllRa P s) (e : s'.ras =
 theorem emptyGI_vb : emptyGI.vb = none := by decide
 
 theorem newRa_inv (r : Nat) (g : GInfo) (hg : g.vb = none) : RaInv (newRa r g) :=
-  ⟨hg, by simp [newRa], by simp [newRa], by simp [newRa]⟩
+  ⟨hg, by simp [newRa], by simp [newRa], by simp [newRa], by simp [newRa]⟩
 
 theorem isSome_false_none {α} {o : Option α} (h : o.isSome = false) : o = none := by
   cases o <;> simp_all
@@ -40,15 +42,15 @@ theorem setgi_inv {ra : Ra} (g1 : GInfo) (hra : RaInv ra) (hv : g1.vb.isSome = f
     RaInv { ra with gi := g1 } := by
   have hnl : ¬ (ra.launched = true ∨ ra.plan.isSome = true) := fun hc => by
     have := hra.sealedI hc; rw [hs] at this; exact absurd this (by simp)
-  exact ⟨isSome_false_none hv, fun hc => absurd hc hnl, hra.closed, hra.opened⟩
+  exact ⟨isSome_false_none hv, fun hc => absurd hc hnl, hra.closed, hra.opened, hra.frz⟩
 
 theorem force_inv {ra : Ra} (g : GInfo) (hra : RaInv ra) (hv : g.vb.isSome = false) :
     RaInv { ra with gi := { g with sealed := true } } :=
-  ⟨by rw [vb_sealed]; exact isSome_false_none hv, fun _ => rfl, hra.closed, hra.opened⟩
+  ⟨by rw [vb_sealed]; exact isSome_false_none hv, fun _ => rfl, hra.closed, hra.opened, hra.frz⟩
 
 theorem plan_inv {ra : Ra} (alloc : Int) (pl : Option Nat) (te : Bool) (ps : Option Nat) (pd : Nat) (hra : RaInv ra) :
     RaInv { ra with gi := { ra.gi with sealed := true }, preLaunch := pl, plan := some (alloc, false), te := te, pstart := ps, pdur := pd } := by
-  refine ⟨by rw [vb_sealed]; exact hra.wf, fun _ => rfl, ?_, hra.opened⟩
+  refine ⟨by rw [vb_sealed]; exact hra.wf, fun _ => rfl, ?_, hra.opened, hra.frz⟩
   intro ht
   obtain ⟨a, b, c, _⟩ := hra.closed ht
   refine ⟨a, b, c, ?_⟩
@@ -59,14 +61,14 @@ theorem plan_inv {ra : Ra} (alloc : Int) (pl : Option Nat) (te : Bool) (ps : Opt
 /-- `EnableTrading` touches the plan's trading flag / start time and the pre-launch time only -/
 theorem enable_inv {ra : Ra} (pl ps : Option Nat) (hra : RaInv ra) :
     RaInv { ra with te := true, pstart := ps, preLaunch := pl } :=
-  ⟨hra.wf, hra.sealedI, hra.closed, hra.opened⟩
+  ⟨hra.wf, hra.sealedI, hra.closed, hra.opened, hra.frz⟩
 
 theorem seq_inv {ra : Ra} (hra : RaInv ra) : RaInv { ra with launched := true, gi := { ra.gi with sealed := true } } :=
-  ⟨by rw [vb_sealed]; exact hra.wf, fun _ => rfl, hra.closed, hra.opened⟩
+  ⟨by rw [vb_sealed]; exact hra.wf, fun _ => rfl, hra.closed, hra.opened, hra.frz⟩
 
 theorem link_inv {ra : Ra} (c : Option Nat) (hc : ra.chan.isSome = true → c.isSome = true) (hra : RaInv ra) :
     RaInv { ra with linked := true, chan := c } :=
-  ⟨hra.wf, hra.sealedI, fun ht => ⟨(hra.closed ht).1, fun hm => hc ((hra.closed ht).2.1 hm), (hra.closed ht).2.2⟩, hra.opened⟩
+  ⟨hra.wf, hra.sealedI, fun ht => ⟨(hra.closed ht).1, fun hm => hc ((hra.closed ht).2.1 hm), (hra.closed ht).2.2⟩, hra.opened, hra.frz⟩
 
 theorem handshake_inv {ra : Ra} (ph : Nat) (p : Pkt) (hra : RaInv ra) (ht0 : ra.tph = 0) (hph : 0 < ph) :
     RaInv (handshake ra ph p).1 := by
@@ -74,7 +76,7 @@ theorem handshake_inv {ra : Ra} (ph : Nat) (p : Pkt) (hra : RaInv ra) (ht0 : ra.
   · rw [h1]; exact hra
   · rw [h2]
     obtain ⟨_, _, hn, _⟩ := hra.closed ht0
-    refine ⟨hra.wf, ?_, ?_, ?_⟩
+    refine ⟨hra.wf, ?_, ?_, ?_, fun _ => by simp only; omega⟩
     · intro hc
       apply hra.sealedI
       rcases hc with hc | hc
@@ -166,10 +168,10 @@ theorem stepCanon_inv (s : St) (r : Nat) (h : AllRa RaInv s) : AllRa RaInv (step
        exact h.setRa (link_inv ra.chan id (h.get hg)))
 
 theorem chan_inv {ra : Ra} (c : Nat) (hra : RaInv ra) : RaInv { ra with chan := some c } :=
-  ⟨hra.wf, hra.sealedI, fun ht => ⟨(hra.closed ht).1, fun _ => rfl, (hra.closed ht).2.2⟩, hra.opened⟩
+  ⟨hra.wf, hra.sealedI, fun ht => ⟨(hra.closed ht).1, fun _ => rfl, (hra.closed ht).2.2⟩, hra.opened, hra.frz⟩
 
 theorem premd_inv {ra : Ra} (hc : ra.chan.isSome = true) (hra : RaInv ra) : RaInv { ra with md := true } :=
-  ⟨hra.wf, hra.sealedI, fun ht => ⟨(hra.closed ht).1, fun _ => hc, (hra.closed ht).2.2⟩, hra.opened⟩
+  ⟨hra.wf, hra.sealedI, fun ht => ⟨(hra.closed ht).1, fun _ => hc, (hra.closed ht).2.2⟩, hra.opened, hra.frz⟩
 
 theorem stepPremd_inv (s : St) (r : Nat) (h : AllRa RaInv s) : AllRa RaInv (stepPremd s r).1 := by
   unfold stepPremd
@@ -185,8 +187,31 @@ theorem stepChopen_inv (s : St) (r : Nat) (via : Nat) (h : AllRa RaInv s) : AllR
   all_goals first
     | exact h
     | exact h.of_ras rfl
-    | (rename_i ra hg _ _ _
+    | (rename_i ra hg _ _ _ _
        exact AllRa.of_ras (h.setRa (chan_inv _ (h.get hg))) rfl)
+
+/-- a state update moves the last height and un-freezes the client -/
+theorem update_inv {ra : Ra} (l : Nat) (hra : RaInv ra) : RaInv { ra with lastH := l, frozen := false } :=
+  ⟨hra.wf, hra.sealedI, hra.closed, hra.opened, fun h => absurd h (by simp)⟩
+
+/-- a hard fork moves the last height, freezes the client and bumps the revision — of an open bridge only -/
+theorem fork_inv {ra : Ra} (l v : Nat) (ht : ra.tph ≠ 0) (hra : RaInv ra) : RaInv { ra with lastH := l, frozen := true, rev := v } :=
+  ⟨hra.wf, hra.sealedI, hra.closed, hra.opened, fun _ => ht⟩
+
+theorem stepUpdate_inv (s : St) (r n : Nat) (h : AllRa RaInv s) : AllRa RaInv (stepUpdate s r n).1 := by
+  unfold stepUpdate
+  repeat' split
+  all_goals first
+    | exact h
+    | exact h.setRa (update_inv _ (h.get (by assumption)))
+
+theorem stepFork_inv (s : St) (r : Nat) (gov : Bool) (ht : Nat) (h : AllRa RaInv s) : AllRa RaInv (stepFork s r gov ht).1 := by
+  unfold stepFork
+  repeat' split
+  all_goals first
+    | exact h
+    | (rename_i ra hg _ hf _ _ _
+       exact h.setRa (fork_inv _ _ (by intro h0; simp [h0] at hf) (h.get hg)))
 
 theorem stepSend_inv (s : St) (c : Nat) (h : AllRa RaInv s) : AllRa RaInv (stepSend s c).1 := by
   unfold stepSend
@@ -215,6 +240,8 @@ theorem step_inv (s : St) (op : Op) (h : AllRa RaInv s) (hp : PhOk op) : AllRa R
   | canon r => exact stepCanon_inv s r h
   | chopen r via => exact stepChopen_inv s r via h
   | premd r => exact stepPremd_inv s r h
+  | update r n => exact stepUpdate_inv s r n h
+  | fork r gov ht => exact stepFork_inv s r gov ht h
   | plainch => exact h.of_ras rfl
   | send c => exact stepSend_inv s c h
   | recv c ph p => exact stepRecv_inv s c ph p h hp
